@@ -46,3 +46,19 @@ package types
 //@        !isnil(avsUSDValues[res_ParseJoinedStoreKey_0[0]].Amount) &&
 //@        val(vouvT(operatorUSDValue)) <= val(avsUSDValues[res_ParseJoinedStoreKey_0[0]].Amount) &&
 //@        val(vouvS(operatorUSDValue)) <= val(vouvT(operatorUSDValue)) && val(vouvA(operatorUSDValue)) <= val(vouvT(operatorUSDValue)) ==> err == nil
+
+// ---------------------------------------------------------------------------------------------
+// C07 (the operator -> key, chain -> operator -> key, chain -> consensus address -> operator indexes, the previous-key
+// records and the removal markers are five collections): every key builder puts its OWN prefix byte in front, with the
+// parts in its own order.
+//@ define kCL(chain) = cat(u64be(len(chain)), chain)
+//@ func KeyForOperatorAndChainIDToConsKey
+//@   ensures[C07.k.fwd] r0 == cat(bytelit(g("x/operator/types.BytePrefixForOperatorAndChainIDToConsKey")), addr, kCL(chainID))
+//@ func KeyForChainIDAndOperatorToConsKey
+//@   ensures[C07.k.fwd2] r0 == cat(bytelit(g("x/operator/types.BytePrefixForChainIDAndOperatorToConsKey")), kCL(chainID), addr)
+//@ func KeyForChainIDAndOperatorToPrevConsKey
+//@   ensures[C07.k.prev] r0 == cat(bytelit(g("x/operator/types.BytePrefixForOperatorAndChainIDToPrevConsKey")), kCL(chainID), addr)
+//@ func KeyForChainIDAndConsKeyToOperator
+//@   ensures[C07.k.rev] r0 == cat(bytelit(g("x/operator/types.BytePrefixForChainIDAndConsKeyToOperator")), kCL(chainID), addr)
+//@ func KeyForOperatorKeyRemovalForChainID
+//@   ensures[C07.k.rem] r0 == cat(bytelit(g("x/operator/types.BytePrefixForOperatorKeyRemovalForChainID")), addr, kCL(chainID))
